@@ -472,6 +472,8 @@ func okPhiFalseInErrorsLoop(p *Prog, fn *ssa.Function, v ssa.Value) bool {
 }
 
 var c04Canaries = []Canary{
+	{Name: "r4-no-pathspec-separator", ExpectKey: "C04.R10", Edits: []Edit{{File: "git/git.go", Find: "\targs = append(args, \"--\")\n\targs = append(args, paths...)", Repl: "\targs = append(args, paths...)"}}},
+	{Name: "r4-declined-leaves-empty-file", ExpectKey: "C04.R9", Edits: []Edit{{File: "lfs/gitfilter_smudge.go", Find: "\t\t\tfile.Seek(0, io.SeekStart)\n\t\t\tptr.Encode(file)\n\t\t\treturn err", Repl: "\t\t\treturn err"}}},
 	{Name: "inspect-wrong-path", ExpectKey: "C04.R1#checkout:inspects-the-path-it-writes", Edits: []Edit{{File: "commands/pull.go", Find: "	filepointer, err := lfs.DecodePointerFromFile(cwdfilepath)", Repl: "	filepointer, err := lfs.DecodePointerFromFile(p.Name)"}}},
 	{Name: "overwrite-non-pointer", ExpectKey: "C04.R1#checkout:no-write-when:not-a-pointer", Edits: []Edit{{File: "commands/pull.go", Find: "			if errors.IsNotAPointerError(err) || errors.IsBadPointerKeyError(err) {\n				// File has non-pointer content, leave it alone\n				return\n			}\n\n			LoggedError(err, tr.Tr.Get(\"Checkout error: %s\", err))\n			return", Repl: "			if errors.IsBadPointerKeyError(err) {\n				// File has non-pointer content, leave it alone\n				return\n			}\n\n			if !errors.IsNotAPointerError(err) {\n				LoggedError(err, tr.Tr.Get(\"Checkout error: %s\", err))\n				return\n			}"}}},
 	{Name: "compare-size-not-oid", ExpectKey: "C04.R1", Edits: []Edit{{File: "commands/pull.go", Find: "	if filepointer != nil && filepointer.Oid != p.Oid {", Repl: "	if filepointer != nil && filepointer.Size != p.Size {"}}},
